@@ -33,7 +33,9 @@ func MakeBitMasks(instruction []byte, bitmaskData []byte) (Bitmask, ExitReason) 
 		if bitmaskData[i/8]&(1<<(i%8)) > 0 {
 			bitmask[i] = 0x01
 
-			if i == 0 || IsBlockTerminator(instruction[prev]) {
+			// (GP A.5) a basic block starts at 0 or right after a terminator n, i.e. at
+			// n+1+skip(n), and skip(n) is at most 24
+			if i == 0 || (IsBlockTerminator(instruction[prev]) && i-prev <= 25) {
 				bitmask[i] |= 0x02
 			}
 
